@@ -467,9 +467,15 @@ func c01Check(c *mc.Ctx, k c01Case, doMem, doStreamW, doStreamR bool) {
 					return
 				}
 			}
-			// stream reader over the bytes-backed reader
+			// stream reader over the bytes-backed reader; the caller's buffer has a power-of-two capacity (as pooled receive
+			// buffers have) so that a wrongful recycle of it is visible to the pool audit
 			mcache.VerifReset()
 			vsync.Reset()
+			pc := 8
+			for pc < len(in) {
+				pc <<= 1
+			}
+			in = append(make([]byte, 0, pc), in...)
 			r := bufiox.NewBytesReader(in)
 			br := thrift.NewBufferReader(r)
 			var decoded []cv
@@ -508,8 +514,20 @@ func c01Check(c *mc.Ctx, k c01Case, doMem, doStreamW, doStreamR bool) {
 					return
 				}
 			}
+			// decode-until-EOF: one more read past the end of the caller's buffer fails, then the reader is released;
+			// nothing of the caller's may have entered the shared pool
+			if _, err := br.ReadI64(); err == nil && len(c01Trail) < 8 {
+				bad("bufread-error:past-end", "BufferReader/BytesReader read an i64 from the %d bytes left", len(c01Trail))
+				failed = true
+				return
+			}
 			br.Recycle()
 			r.Release(nil)
+			if a := mcache.VerifTakeAudit(); len(a) > 0 {
+				bad("pool-audit:"+auditClass(a[0]), "after decoding from a bytes reader over the caller's buffer (len %d cap %d), reading past its end and releasing: %v", len(in), cap(in), a)
+				failed = true
+				return
+			}
 		}
 		if doStreamW {
 			// stream writer over the io.Writer-backed and the bytes-backed writer
